@@ -62,7 +62,7 @@ var propSpecs = []propSpec{
 			{dir: "mux", entry: "ZZC04", quick: []int{1, 2, 3, 101, 102, 103, 1001, 1002, 1003, 1101, 1102, 1103, 2001, 2002, 2003, 2102, 3001, 3002, 3003}, thorough: []int{1, 2, 3, 4, 101, 102, 103, 104, 1001, 1002, 1003, 1004, 1101, 1102, 1103, 1104, 2001, 2002, 2003, 2004, 2103, 3001, 3002, 3003, 3004}, mapRev: true},
 		},
 		covers:  []string{"history", "options-allow", "405-allow"},
-		bounds:  "4 operation alphabets of 8-10 operations, the third after a 3-route setup with a split literal node, the fourth (without WithTrace only) with TRACE registered by hand (registrations that split nodes after methods were registered, removal of all / of single / of never-registered methods / of one method named twice, Clean, Prefix.Clean with prefixes ending on a node boundary / inside a segment / on the parent, Any), every history of <= 3 operations, with and without WithTrace, both map iteration orders; after the last step, for every live pattern: Allow of OPTIONS and of 405 (read through the node captured by the builder), Node().Methods()/AllowHeader(), Routes(), for every request reaching the route (parameter values symbolic, <= 2 bytes); OPTIONS * on every state including the brand-new router",
+		bounds:  "4 operation alphabets of 8-11 operations, the third after a 3-route setup with a split literal node, the fourth (without WithTrace only) with TRACE registered by hand (registrations that split nodes after methods were registered, removal of all methods of a leaf and of an inner node with live descendants / of single / of never-registered methods / of one method named twice, Clean, Prefix.Clean with prefixes ending on a node boundary / inside a segment / on the parent, Any), every history of <= 3 operations, with and without WithTrace, both map iteration orders; after the last step, for every live pattern: Allow of OPTIONS and of 405 (read through the node captured by the builder), Node().Methods()/AllowHeader(), Routes(), for every request reaching the route (parameter values symbolic, <= 2 bytes); OPTIONS * on every state including the brand-new router",
 		boundsT: "as quick with histories of <= 4 operations",
 		outside: "longer histories, other pattern pools",
 		stubs:   stdStubs,
@@ -103,10 +103,10 @@ var propSpecs = []propSpec{
 	{
 		id: "C17",
 		runs: []runSpec{
-			{dir: "mux", entry: "ZZC17", quick: []int{2002, 12002, 22002, 32002, 42002, 112001, 122001, 222001, 312001, 422001, 442001, 3000, 13000}, thorough: []int{2002, 12002, 22002, 32002, 42002, 13002, 23002, 112002, 122002, 222002, 312002, 422002, 442002, 102002, 202002, 3000, 13000, 4000, 14000, 24000}},
+			{dir: "mux", entry: "ZZC17", quick: []int{2002, 12002, 22002, 32002, 42002, 1002002, 112001, 122001, 222001, 312001, 422001, 442001, 3000, 13000}, thorough: []int{2002, 12002, 22002, 32002, 42002, 1002002, 1012002, 1003000, 13002, 23002, 112002, 122002, 222002, 312002, 422002, 442002, 102002, 202002, 3000, 13000, 4000, 14000, 24000}},
 		},
 		covers:  []string{"accepted", "rejected"},
-		bounds:  "5 route tables (one with a split literal node whose inner node is a candidate pattern), optionally after an earlier Handle that was rejected for its method (it may leave handler-less nodes behind); one Handle call with a pattern from a 17-pattern pool (live, name variants, '-' variants, rule variants, new, 6 malformed) and a method list of <= 2 entries from {GET, POST, HEAD, OPTIONS, unknown}, single-entry lists with every method string of <= 3 bytes; compared before/after a rejected call: Routes(), the Allow header of every live pattern (OPTIONS and 405), and the outcome of the same symbolic request (path <= 2 bytes x 4 methods incl. HEAD); accept/reject clauses against an independent shape comparison",
+		bounds:  "5 route tables (one with a split literal node whose inner node is a candidate pattern), optionally after an earlier Handle that was rejected for its method (it may leave handler-less nodes behind); one Handle call with a pattern from a 17-pattern pool (live, name variants, '-' variants, rule variants, new, 6 malformed) and a method list of <= 2 entries from {GET, POST, HEAD, OPTIONS, unknown} (plus TRACE on a router with WithTrace, where it is reserved: one table in quick, two in thorough), single-entry lists with every method string of <= 3 bytes; compared before/after a rejected call: Routes(), the Allow header of every live pattern (OPTIONS and 405), and the outcome of the same symbolic request (path <= 2 bytes x 4 methods incl. HEAD); accept/reject clauses against an independent shape comparison",
 		boundsT: "as quick plus method lists of <= 3 entries with a 2-byte probe on two tables and lists of <= 4 entries with a fixed probe on three tables",
 		outside: "longer method lists; other pools; effects of a rejected call on strict URL building",
 		stubs:   stdStubs,
